@@ -66,6 +66,9 @@ type schedStep struct {
 	Pos  string `json:"pos,omitempty"`
 	UPos string `json:"upos,omitempty"`
 	Case int    `json:"case"`
+	// Skip: the operation has no replay point in the instrumented native build
+	// (it happens inside the standard library or inside a model)
+	Skip bool `json:"skip,omitempty"`
 }
 
 type gorInfo struct {
@@ -96,6 +99,7 @@ type obsEntry struct {
 
 type Path struct {
 	eng     *Engine
+	cfg     *Config
 	tc      *TermCtx
 	sol     *Solver
 	harness *ssa.Function
@@ -343,7 +347,7 @@ func (p *Path) concretize(t *Term, signed bool, lo, hi int64) int64 {
 		p.addPC(p.tc.Eq(t, p.tc.BV(t.w, uint64(int64(d.Pick)))))
 		return int64(d.Pick)
 	}
-	if hi-lo > int64(p.eng.cfg.MaxConcretize) {
+	if hi-lo > int64(p.cfg.MaxConcretize) {
 		panic(unsupported{fmt.Sprintf("concretise over range [%d,%d] too large", lo, hi)})
 	}
 	var feas []int64
